@@ -29,7 +29,7 @@ from harness.common import exc_name, jdump
 PID = "C08"
 TITLE = "Context addressing, formatting and update elements touch exactly the named item"
 LEAN_MODULES = ["LenaModel.Props.C08"]
-LEAN_SOURCES = ["LenaModel/Model/C08.lean", "LenaModel/Props/C08.lean", "LenaModel/Lemmas/C08.lean"]
+LEAN_SOURCES = ["LenaModel/Model/C08.lean", "LenaModel/Props/C08.lean"]
 DRIVER = "drivers/C08.lean"
 THEOREMS = [
 ]
@@ -506,7 +506,7 @@ def gen_cases(ctx):
         sub = ".".join(rng.choice(["a", "b", "c"]) for _ in range(rng.randint(1, 3)))
         kind = rng.random()
         if kind < 0.3:
-            upd = {"v": enc(rng.choice([1, None, "s", rand_ctx(rng, ["a", "b"], 2)]))}
+            upd = {"v": enc(rng.choice([1, None, True, rand_ctx(rng, ["a", "b"], 2)]))}
         elif kind < 0.4:
             upd = {"s": rng.choice(["lit", "", "a.b", "{a}", "{{", "}}", "{{a}", "a}}"])}
         else:
@@ -562,13 +562,13 @@ def _get_variants(p):
     return out
 
 
-def _outcome(thunk, ident=None):
+def _outcome(thunk, ident=MISSING):
     try:
         r = thunk()
     except Exception as e:
         return {"e": exc_name(e)}
     o = {"r": enc(r)}
-    if ident is not None:
+    if ident is not MISSING:
         o["same"] = r is ident
     return o
 
@@ -603,12 +603,10 @@ def run_impl(case):
         out = []
         for p in _paths_of(case):
             ref = ref_get(d, p)
-            ident = None if ref is MISSING else ref
             rec = {}
             for tag, keys in _get_variants(p):
-                rec[tag] = _outcome(lambda: lc.get_recursively(d, keys), ident)
-                dd = _outcome(lambda: lc.get_recursively(d, keys, DFLT), ident if ident is not None else DFLT)
-                rec[tag + "d"] = dd
+                rec[tag] = _outcome(lambda: lc.get_recursively(d, keys), ref)
+                rec[tag + "d"] = _outcome(lambda: lc.get_recursively(d, keys, DFLT), DFLT if ref is MISSING else ref)
             s = ".".join(p)
             rec["c"] = _outcome(lambda: lc.contains(d, s))
             out.append(rec)
@@ -769,7 +767,9 @@ def _run_uc(case):
             rctx = r[1]
             src_before = MISSING
             if src is not None and not (src[:len(subpath)] == subpath or subpath[:len(src)] == src):
-                src_before = copy.deepcopy(ref_get(rctx, src))
+                sb = ref_get(rctx, src)
+                if sb is not MISSING:
+                    src_before = copy.deepcopy(sb)
             item = ref_get(rctx, subpath)
             if item is not MISSING:
                 _poke(item)
@@ -780,11 +780,6 @@ def _run_uc(case):
             if src_before is not MISSING and not strict_eq(ref_get(rctx, src), src_before):
                 leaks.append("source-item")
             # the element itself must behave as before
-            c2 = dec(w) if w is not None else None
-            v2 = (["payload"], c2) if c2 is not None else ["payload"]
-            again = _outcome(lambda: el(v2))
-            if "r" in again:
-                r2 = el(v2) if False else None
             try:
                 rr = el((["payload"], dec(w)) if w is not None else ["payload"])
                 rr_ctx = enc(rr[1]) if isinstance(rr, tuple) and len(rr) == 2 and isinstance(rr[1], dict) else None
@@ -1325,7 +1320,23 @@ def _oracle_setctx(case, res):
     return None
 
 
-_BAD_JINJA = ("{{a", "{{}}")
+def _jinja_bad(s):
+    """True: jinja2 must reject the template (an unclosed or empty print statement); False: literal text and
+    {{name}} prints only; None: not judged"""
+    i, verdict = 0, False
+    while True:
+        i = s.find("{{", i)
+        if i < 0:
+            return verdict
+        j = s.find("}}", i + 2)
+        if j < 0:
+            return True
+        expr = s[i + 2:j].strip()
+        if expr == "":
+            return True
+        if not all(part.isidentifier() for part in expr.split(".")):
+            verdict = None
+        i = j + 2
 
 
 def _uc_expect_init(case):
@@ -1353,8 +1364,13 @@ def _uc_expect_init(case):
         else:
             if "default" in a:
                 problems.add("LenaValueError")
-            if s in _BAD_JINJA and (n_active or "{" in s):
-                problems.add("LenaValueError")
+            if n_active or "{" in s:
+                bad = _jinja_bad(s)
+                if bad:
+                    problems.add("LenaValueError")
+                elif bad is None:
+                    problems.add("LenaValueError")
+                    problems.add("ok")
     return problems or "ok"
 
 
@@ -1400,10 +1416,12 @@ def _oracle_uc(case, res):
     a = case["args"]
     what = f"UpdateContext({a})"
     exp = _uc_expect_init(case)
-    if exp != "ok":
+    if exp != "ok" and "ok" not in exp:
         if res["init"] not in exp and not (len(exp) > 1 and res["init"] in ("LenaTypeError", "LenaValueError")):
             return f"{what}: malformed arguments, expected {sorted(exp)}, got {res['init']}"
         return None
+    if exp != "ok" and res["init"] != "ok":
+        return None if res["init"] in exp else f"{what}: expected one of {sorted(exp)}, got {res['init']}"
     if res["init"] != "ok":
         return f"{what}: well-formed arguments rejected with {res['init']}"
     subpath = a["subcontext"].split(".")
